@@ -51,7 +51,18 @@ pub fn gen_sched_script(t: &mut Tape, p: &SchedProfile) -> Script {
         delta_ms: *t.pick(&[3_600_000u64, 1000, 0]),
         min_wait_ms: if t.chance(p.min_wait.0, p.min_wait.1) { Some(*t.pick(&[60_000u64, 1, 7_000])) } else { None },
     });
-    s.check_decisions = t.vec_of(6, |t| CheckDecisionSpec { kind: if t.chance(1, 4) { 2 + t.choose(3) as u8 } else { 0 }, source_on_demand: None, proxies: false, disable_updates: false, same_version: false });
+    s.check_decisions = t.vec_of(6, |t| CheckDecisionSpec {
+        kind: if t.chance(1, 4) { 2 + t.choose(3) as u8 } else { 0 },
+        // the policy may echo the request's options into the parameters, or decide otherwise
+        source_on_demand: match t.weighted(&[3, 1, 1]) {
+            0 => None,
+            1 => Some(true),
+            _ => Some(false),
+        },
+        proxies: t.flag(),
+        disable_updates: t.chance(1, 5),
+        same_version: t.chance(1, 5),
+    });
     let nhttp = t.choose(10);
     s.http = (0..nhttp)
         .map(|_| {
